@@ -47,15 +47,15 @@ func NewUniverse() *Universe {
 		"(declare-sort Str 0)",
 		"(declare-datatypes ((Iface 0)) (((mk-iface (ityp Int) (ival Int)))))",
 	)
-	u.DeclFun("str.len", "(Str) Int")
-	u.DeclFun("str.at", "(Str Int) Int")
-	u.DeclFun("str.cat", "(Str Str) Str")
-	u.DeclFun("str.sub", "(Str Int Int) Str")
+	u.DeclFun("gs.len", "(Str) Int")
+	u.DeclFun("gs.at", "(Str Int) Int")
+	u.DeclFun("gs.cat", "(Str Str) Str")
+	u.DeclFun("gs.sub", "(Str Int Int) Str")
 	u.DeclFun("ptag", "(Int) Int")
 	u.DeclFun("proot", "(Int) Int")
 	u.axioms = append(u.axioms,
-		"(forall ((s Str)) (! (>= (str.len s) 0) :pattern ((str.len s))))",
-		"(forall ((a Str) (b Str)) (! (= (str.len (str.cat a b)) (+ (str.len a) (str.len b))) :pattern ((str.cat a b))))",
+		"(forall ((s Str)) (! (>= (gs.len s) 0) :pattern ((gs.len s))))",
+		"(forall ((a Str) (b Str)) (! (= (gs.len (gs.cat a b)) (+ (gs.len a) (gs.len b))) :pattern ((gs.cat a b))))",
 	)
 	u.axioms = append(u.axioms, "(= (proot 0) 0)")
 	u.axiomName = append(u.axiomName, "str.len>=0", "str.cat.len", "proot(nil)=nil")
@@ -313,10 +313,10 @@ func (u *Universe) StrAxioms() []string {
 	for _, s := range u.strOrder {
 		n := u.strLits[s]
 		names = append(names, n)
-		out = append(out, fmt.Sprintf("(= (str.len %s) %d)", n, len(s)))
+		out = append(out, fmt.Sprintf("(= (gs.len %s) %d)", n, len(s)))
 		if len(s) <= 24 {
 			for i := 0; i < len(s); i++ {
-				out = append(out, fmt.Sprintf("(= (str.at %s %d) %d)", n, i, s[i]))
+				out = append(out, fmt.Sprintf("(= (gs.at %s %d) %d)", n, i, s[i]))
 			}
 		}
 	}
